@@ -110,8 +110,8 @@ def pick_faults(base, rng, tier):
     (asn1c = model = spec).  Round-robin over the major fault families (collision, COMPONENTS OF, duplicate identifier,
     enumeration name / value, dangling reference, big enumerations, hand-written witnesses ...), inside a major family
     over its sub-families, so that a small budget still meets every kind of fault."""
-    want_bad = 32 if tier == "quick" else 240
-    want_ok = 8 if tier == "quick" else 40
+    want_bad = 32 if tier == "quick" else 160
+    want_ok = 8 if tier == "quick" else 30
 
     def major(fam, lab):
         if fam.startswith("fixed") or lab[:2] in ("w-", "x-", "t-", "q-", "c-", "e-"):
